@@ -193,9 +193,17 @@ func ValueOfSexp(s *Sexp) ugo.Object {
 		return (*ugo.RuntimeError)(nil)
 	case "rt0":
 		return &ugo.RuntimeError{}
+	case "oimpl":
+		return &hostObj{}
 	}
 	panic("bad value sexp: " + s.String())
 }
+
+// hostObj is a host object that embeds ObjectImpl and overrides nothing but TypeName: its String method
+// panics (not implemented), as the documentation of ObjectImpl says.
+type hostObj struct{ ugo.ObjectImpl }
+
+func (*hostObj) TypeName() string { return "hostobj" }
 
 func sortedKeys(m map[string]ugo.Object) []string {
 	keys := make([]string, 0, len(m))
@@ -263,6 +271,8 @@ func SexpOfValue(o ugo.Object) *Sexp {
 		return L(A("fn"), hexAtom([]byte("compiled")))
 	case *ugo.BuiltinFunction:
 		return L(A("fn"), hexAtom([]byte("builtin:"+v.Name)))
+	case *hostObj:
+		return L(A("o"), hexAtom([]byte("hostobj")), hexAtom(nil))
 	}
 	return opaqueSexp(o)
 }
